@@ -842,6 +842,59 @@ fn trim_tokens(tokens: &Vec<LexerToken>) -> &[LexerToken] {
     &tokens[start..end]
 }
 
+// the builder walks the result as a tree, make sure it is one:
+// every child index exists and names this node as its parent, no node is reached twice,
+// and everything that is not reached is a separator that was dropped
+fn validate_tree(nodes: &Vec<ParseNode>, root: usize) -> Result<(), CompilerError> {
+    let malformed = |index: usize| -> Result<(), CompilerError> {
+        let error = CompilerError::new_message(format!("Syntax Error: Malformed expression, node {:?} is not a proper part of the parse tree", index));
+        match nodes.get(index) {
+            Some(node) => Err(error.append_token_details(&node.lex_token)),
+            None => Err(error),
+        }
+    };
+
+    let mut visited = vec![false; nodes.len()];
+    let mut stack = vec![];
+
+    match visited.get_mut(root) {
+        None => malformed(root)?,
+        Some(v) => {
+            *v = true;
+            stack.push(root);
+        }
+    }
+
+    while let Some(index) = stack.pop() {
+        let (left, right) = match nodes.get(index) {
+            None => (None, None),
+            Some(node) => (node.left, node.right),
+        };
+
+        for child in [left, right] {
+            match child {
+                None => (),
+                Some(child_index) => match (nodes.get(child_index), visited.get(child_index)) {
+                    (Some(child_node), Some(false)) if child_node.parent == Some(index) => {
+                        visited[child_index] = true;
+                        stack.push(child_index);
+                    }
+                    _ => malformed(child_index)?,
+                },
+            }
+        }
+    }
+
+    for (index, node) in nodes.iter().enumerate() {
+        let dropped_separator = node.definition == Definition::Subexpression || node.definition == Definition::ExpressionSeparator;
+        if !visited[index] && !dropped_separator {
+            malformed(index)?;
+        }
+    }
+
+    Ok(())
+}
+
 pub fn parse(lex_tokens: &Vec<LexerToken>) -> Result<ParseResult, CompilerError> {
     trace!("Starting parse");
     let priority_map = make_priority_map();
@@ -1394,6 +1447,8 @@ pub fn parse(lex_tokens: &Vec<LexerToken>) -> Result<ParseResult, CompilerError>
             implementation_error(format!("Max iterations reached when searching for root node."))?;
         }
     }
+
+    validate_tree(&nodes, root)?;
 
     Ok(ParseResult { root, nodes })
 }
